@@ -242,3 +242,28 @@ Proof. vm_compute. split; reflexivity. Qed.
 Example ex_exact_fit : run_writes [[1; 2]; [3]] (ex_dest ErrOnly 3) 0
   = ({| d_acc := [9; 1; 2; 3]; d_budget := Some 0; d_mode := ErrOnly |}, 3, true).
 Proof. vm_compute. reflexivity. Qed.
+
+(* ---- Bundle.WriteTo through the CountingWriter --------------------------------------------------
+   Every failure of b_write happens before the first Write, so WriteTo(dest) is
+   run_writes over SOME chunking cs of the bytes b_write yields.  Whatever the
+   chunking and the destination's behaviour, the count returned is the number of
+   bytes the destination took, and those bytes are a prefix of the bundle. *)
+Theorem write_count_exact (b : bundle) (bs : bytes) (cs : list bytes) (d d' : dest) (n : N) (ok : bool) :
+  b_write b = Ok bs -> List.concat cs = bs -> run_writes cs d 0 = (d', n, ok) ->
+  n = lenN (d_acc d') - lenN (d_acc d)
+  /\ d_acc d' = d_acc d ++ takeN n bs /\ n <= lenN bs
+  /\ (ok = true -> d_acc d' = d_acc d ++ bs /\ n = lenN bs)
+  /\ (ok = true <-> match d_budget d with None => True | Some k => lenN bs <= k end).
+Proof.
+  intros _ E H. subst bs.
+  destruct (run_writes_count_exact _ _ _ _ _ H) as [_ Hn].
+  destruct (run_writes_prefix _ _ _ _ _ H) as [k [Hk [Ek Lk]]]. subst k.
+  pose proof (run_writes_spec cs d 0) as S. rewrite H in S. destruct S as [A [Nn O]].
+  split; [exact Hn|]. split; [exact Hk|]. split; [exact Lk|]. split.
+  - intros T. rewrite T in O. unfold accepted in *. destruct (d_budget d) as [k|].
+    + symmetry in O. apply N.leb_le in O. destruct (d_mode d).
+      * rewrite fit_prefix_all in * by exact O. split; [exact A|lia].
+      * rewrite takeN_all in * by exact O. split; [exact A|lia].
+    + split; [exact A|lia].
+  - rewrite O. destruct (d_budget d) as [k|]; [|tauto]. split; intros T; [apply N.leb_le|apply N.leb_le]; exact T.
+Qed.
